@@ -29,6 +29,8 @@ PINS = json.loads((Path(__file__).resolve().parents[2] / "translate" / "pins_C07
 K_REENTRY = "handle-fork-key:limit-wait-reentry"
 K_ORDER = "handle-fork-key:sibling-arrival-order"
 K_SHARED = "value-hash:shared-object:executed-vs-replayed-twin"
+K_REJECT = "failed-call:recorded-children:sibling-completion-order"
+K_CROSS = "handle-fork-key:cross-parent-arrival-order"      # NOT a known finding: one fork counter per execution
 
 c = lambda v: ("c", v)
 p = lambda i: ("p", i)
@@ -59,6 +61,36 @@ ROOTP = [{"n": 1, "body": l(call(1), call(2, p(0)), p(0)), "limits": None},
 ROOT_ARGS = (("h", 3),)
 
 
+# main() = [P(), Q()], P() = [use(H("h0"))], Q() = [use(H("h0")), 0]: two PARENTS each pass their own fresh H("h0")
+# (the same un-keyed Handle state) to one child                  (Proofs/TimingWit.v W4)
+W4 = [{"n": 0, "body": l(call(1), call(2)), "limits": None}, {"n": 0, "body": l(call(3, h(0))), "limits": None},
+      {"n": 0, "body": l(call(3, h(0)), c(0)), "limits": None}, {"n": 1, "body": c(8), "limits": None}]
+# the same with a Handle returned by a common upstream task: P() = [use(open())], Q() = [use(open()), 0], open() = H("h0")
+W4B = [{"n": 0, "body": l(call(1), call(2)), "limits": None}, {"n": 0, "body": l(call(3, call(4))), "limits": None},
+       {"n": 0, "body": l(call(3, call(4)), c(0)), "limits": None}, {"n": 1, "body": c(8), "limits": None},
+       {"n": 0, "body": h(0), "limits": None}]
+
+
+def rejected_parent_runs():
+    """root() = catch(P(), ValueError, recover), P() = [ok(), boom()] (harness/progs/vm.py specs, not modelled in
+    Coq): the failed P records a CallNode whose children are the child calls that HAD a call hash when P was
+    rejected — with ok() completing before boom() or after it.  Returns [(result, call-node hashes, edges)]."""
+    from harness import sched
+    from harness.progs import vm
+    from redun.backends.db import CallEdge, CallNode
+    ok_ = ("ok", "leaf", 1, (), None)
+    boom = ("boom", "raise", "x", (), None)
+    root = ("root", "catch", 0, (("P", "list", 0, (ok_, boom), None),), None)
+    out = []
+    for prio in (["root", "P", "ok", "boom"], ["root", "P", "boom", "ok"]):
+        o = sched.run_program(lambda: vm.call(root), {}, random.Random(0), complete_prob=0.0, priority=prio)
+        sess = o["scheduler"].backend.session
+        out.append((repr(o.get("result")), repr(o.get("error")),
+                    tuple(sorted(x.call_hash for x in sess.query(CallNode).all())),
+                    tuple(sorted({(e.parent_id, e.child_id) for e in sess.query(CallEdge).all()}))))
+    return out
+
+
 def by_task(order):
     """complete the held job whose task comes first in `order`"""
     def f(held, run):
@@ -78,6 +110,10 @@ WITNESSES = [
      [({}, [0, 2, 3, 1]), ({}, [0, 3, 2, 1])], K_ORDER),
     ("W3 twins whose result holds one list twice: P's twin runs first vs Q's", W3,
      [({}, [0, 1, 2, 3, 4]), ({}, [0, 2, 1, 3, 4])], K_SHARED),
+    ("W4 main=[P(),Q()], P=[use(H)], Q=[use(H),0]: P completes first vs Q first", W4,
+     [({}, [0, 1, 3, 2]), ({}, [0, 2, 3, 1])], K_CROSS),
+    ("W4b main=[P(),Q()], P=[use(open())], Q=[use(open()),0]: P's subtree first vs Q's", W4B,
+     [({}, [0, 1, 4, 3, 2]), ({}, [0, 2, 4, 3, 1])], K_CROSS),
 ]
 
 
@@ -190,8 +226,14 @@ def explain(prog, runs, variant):
             if len({sigs[i] for i in calm}) > 1:
                 a = calm[0]
                 b = next(i for i in calm if sigs[i] != sigs[a])
-                out.append(("handle:unexplained-difference",
-                            "same arrival order of sibling calls, nobody re-entered, yet the recorded graphs differ", (a, b)))
+                if c07_run.cross_parent_arrival(runs[a]) != c07_run.cross_parent_arrival(runs[b]):
+                    out.append((K_CROSS, "same arrival order among the children of every parent job, nobody re-entered, "
+                                         "yet the fork keys differ: jobs of DIFFERENT parents that pass on the same un-keyed "
+                                         "Handle state reached _exec_job_main_thread in another order (fork counter shared "
+                                         "across parent jobs?)", (a, b)))
+                else:
+                    out.append(("handle:unexplained-difference",
+                                "same arrival order of sibling calls, nobody re-entered, yet the recorded graphs differ", (a, b)))
                 continue
             a = idx[0]
             b = next(i for i in idx if sigs[i] != sigs[a])
@@ -214,7 +256,9 @@ class Check(PropertyCheck):
     theorems = ["C07_handle_free_schedule_independent", "C07_once_per_job_linear_schedule_independent",
                 "C07_recorded_graph_is_root_tree", "C07_refuted_limits_as_shipped", "C07_limits_witness_fixed",
                 "C07_refuted_limits_e7_as_shipped", "C07_reentry_inert_fixed",
-                "C07_refuted_sibling_order_as_shipped", "C07_sibling_order_remains_fixed"]
+                "C07_refuted_sibling_order_as_shipped", "C07_sibling_order_remains_fixed",
+                "C07_refuted_per_execution_counter", "C07_per_execution_witness_per_parent",
+                "C07_per_execution_witness_linear"]
     extra_modules = ["Model.Timing"]
     variant = None
     assumptions = [
@@ -237,17 +281,29 @@ class Check(PropertyCheck):
             text, cfg, _ = tr_timing.translate(pins=PINS)
         except astutil.TranslateError as e:
             raise TranslateError(str(e))
-        shipped = {"pre_every_entry": True, "read_after_incr": True, "root_order": 0, "key_reuse": True}
+        shipped = {"pre_every_entry": True, "read_after_incr": True, "root_order": 0, "key_reuse": True,
+                   "forks_per_parent": True}
         fixed = dict(shipped, pre_every_entry=False)
-        if cfg == shipped:
+        bb = lambda x: "true" if x else "false"
+        self.cfg_literal = ("{| pre_every_entry := %s; read_after_incr := %s; root_order := %d%%nat; key_reuse := %s; "
+                            "forks_per_parent := %s |}" % (bb(cfg["pre_every_entry"]), bb(cfg["read_after_incr"]),
+                                                           cfg["root_order"], bb(cfg["key_reuse"]), bb(cfg["forks_per_parent"])))
+        if cfg in (dict(shipped, forks_per_parent=False), dict(fixed, forks_per_parent=False)):
+            self.variant = "per-execution"
+            tie = ("(* ONE fork counter per execution: C07_refuted_per_execution_counter applies (for the once-per-job call site;\n"
+                   "   the every-entry one is refuted already); the determinism theorem needs forks_per_parent = true *)\n"
+                   "Lemma C07_tie_per_execution : forks_per_parent gen_cfg = false /\\ "
+                   "(gen_cfg = per_execution \\/ pre_every_entry gen_cfg = true).\n"
+                   "Proof. split; [reflexivity | (left; reflexivity) || (right; reflexivity)]. Qed.\n")
+        elif cfg == shipped:
             self.variant = "shipped"
             tie = ("(* _preprocess_args runs on every entry of _exec_job_main_thread: C07_refuted_limits_as_shipped applies *)\n"
                    "Lemma C07_tie_shipped : gen_cfg = shipped.\nProof. reflexivity. Qed.\n")
         elif cfg == fixed:
             self.variant = "fixed"
             tie = ("(* once per job: C07_once_per_job_linear_schedule_independent applies *)\n"
-                   "Lemma C07_tie_fixed : gen_cfg = fixed /\\ pre_every_entry gen_cfg = false.\n"
-                   "Proof. split; reflexivity. Qed.\n")
+                   "Lemma C07_tie_fixed : gen_cfg = fixed /\\ pre_every_entry gen_cfg = false /\\ forks_per_parent gen_cfg = true.\n"
+                   "Proof. repeat split; reflexivity. Qed.\n")
         else:
             self.variant = "other"
             tie = "Lemma C07_tie : gen_cfg = shipped \\/ gen_cfg = fixed.\nProof. (left; reflexivity) || (right; reflexivity). Qed.\n"
@@ -261,15 +317,22 @@ class Check(PropertyCheck):
         return [{"r0": 100, "r1": 100}, {"r0": 2, "r1": 1}, {"r0": 1, "r1": 1}]
 
     def run_all(self):
-        nprog = 24 if self.tier == "quick" else 450
+        nprog = 20 if self.tier == "quick" else 400
         reps = 2 if self.tier == "quick" else 3
         db = c07_run.DbTemplate()
         self.programs = []
         try:
             for n in range(nprog):
-                mode = ["none", "linear", "shared"][n % 3]
+                mode = ["none", "linear", "shared", "cross"][n % 4]
                 prog = vm_c07.gen_program(self.rng, mode, resources=("r0", "r1"))
                 runs = []
+                # both orders of any two concurrently running jobs of different tasks: lowest task first / highest first
+                nt = len(prog)
+                for order in ([0] + list(range(1, nt)), [0] + list(range(nt - 1, 0, -1))):
+                    r = c07_run.run_prog(prog, self.limit_configs()[0], random.Random(0), complete_prob=0.0,
+                                         chooser=by_task(order), db=db)
+                    r.params = {"limits": self.limit_configs()[0], "order": order}
+                    runs.append(r)
                 for lim in self.limit_configs():
                     for _ in range(reps):
                         seed = self.rng.randrange(1 << 30)
@@ -307,7 +370,7 @@ class Check(PropertyCheck):
 
     def correspond(self):
         self.run_all()
-        cfg = {"shipped": "shipped", "fixed": "fixed"}.get(self.variant)
+        cfg = {"shipped": "shipped", "fixed": "fixed", "per-execution": "(" + getattr(self, "cfg_literal", "") + ")"}.get(self.variant)
         if cfg is None:
             self.ob("correspondence", "model replays the real event sequences (no recognised variant)", False,
                     f"translator variant: {self.variant}")
@@ -372,6 +435,23 @@ class Check(PropertyCheck):
         elif self.variant == "fixed":
             self.ob("tie-witness", "C07_limits_witness_fixed: the limits witnesses agree on the real Scheduler", not any(w1),
                     "translator says once per job but the limits witnesses differ")
+        rj = rejected_parent_runs()
+        self.evaluations += len(rj)
+        self.stat("witnesses", "rejected parent catch(P()), P=[ok(),boom()], ok first vs boom first: "
+                  + ("differ" if len(set(rj)) > 1 else "agree"))
+        if len(set(rj)) > 1:
+            self.findings.append(Finding(
+                K_REJECT, "the CallNode of a failed call lists the children that had finished when it was rejected",
+                {"kind": "rejected-parent", "program": "root=catch(P(),ValueError,recover); P=[ok(),boom()]",
+                 "runs": [{"complete first": "ok"}, {"complete first": "boom"}],
+                 "call nodes": [[h[:8] for h in x[2]] for x in rj]}))
+        w4 = [len({c07_run.graph_signature(r) for r in runs}) > 1 for n, _, runs, k in self.witness_runs if k == K_CROSS]
+        if self.variant == "per-execution":
+            self.ob("tie-witness", "C07_refuted_per_execution_counter reproduces on the real Scheduler (W4, W4b)", all(w4),
+                    "translator says one fork counter per execution but the cross-parent witnesses agree")
+        elif self.variant in ("shipped", "fixed"):
+            self.ob("tie-witness", "C07_per_execution_witness_per_parent: the cross-parent witnesses agree on the real Scheduler",
+                    not any(w4), "translator says one fork counter per parent job but the cross-parent witnesses differ")
         for mode, prog, runs in self.programs:
             for key, what, (a, b) in explain(prog, runs, self.variant):
                 nviol += 1
@@ -379,7 +459,7 @@ class Check(PropertyCheck):
                                                          "runs": [runs[a].params, runs[b].params]}))
         self.stat("oracle", "programs compared across schedules", len(self.programs))
         self.stat("oracle", "programs whose runs differ", nviol)
-        self.ob("oracle", "implementation oracle ran (result hash, CallNode hashes, Argument rows across schedules)", True)
+        self.ob("oracle", "implementation oracle ran (result hash, CallNode / Argument / Value / Evaluation / Handle rows across schedules)", True)
 
     # ------------------------------------------------------------------
     def replay(self, doc):
@@ -387,6 +467,12 @@ class Check(PropertyCheck):
         if "program" not in r:
             print("replay: nothing to replay:", doc.get("broken_obligations"))
             return 1
+        if r.get("kind") == "rejected-parent":
+            rj = rejected_parent_runs()
+            for x in rj:
+                print("result", x[0], "call nodes", [h[:8] for h in x[2]], "edges", len(x[3]))
+            print("replay: still fails (the executions differ)" if len(set(rj)) > 1 else "replay: the executions agree")
+            return 1 if len(set(rj)) > 1 else 0
         prog = eval(r["program"])
         runs = []
         for prm in r["runs"]:
